@@ -661,6 +661,22 @@ theorem all_writes_in_memory_and_designated (fixed : Bool) (h : Host) (hh : Host
       wasi_writes_within_designated_by_name fixed h hh fds m hm fn h2 a rs hc r hr w hw⟩
 
 example : modelled.length = 46 ∧ modelled.Nodup := by decide
+
+theorem zeroPage_bytes : Bytes zeroPage := by
+  intro a
+  simp [Mem.get, zeroPage]
+
+/-- the side conditions of the all-46 theorems are met by an ordinary state (the harness state `dir` on a zeroed
+page, an empty host configuration): the theorems apply to, e.g., path_open and fd_read there -/
+example (rs : List Res) (hc : call true true true {} dirFds zeroPage "path_open" [3, 0, 2048, 5, 0, 0, 0, 0, 16384] = some rs) :
+    ∀ r ∈ rs, ∀ w ∈ r.writes, (w.len = 0 ∨ w.off + w.len ≤ zeroPage.size) ∧
+      Wr.within w (designated {} zeroPage "path_open" ([3, 0, 2048, 5, 0, 0, 0, 0, 16384].map w32)) :=
+  all_writes_in_memory_and_designated true {} (by unfold HostNamesOk; decide) (by unfold HostArgsOk nulSize; decide)
+    dirFds zeroPage zeroPage_bytes (by decide) "path_open" (by decide) _ rs hc
+example (rs : List Res) (hc : call true false false {} dirFds zeroPage "fd_read" [4, 0, 2, 16384] = some rs) :
+    ∀ r ∈ rs, r.err ≠ Err.panic :=
+  all_no_host_panic false false {} (by unfold HostNamesOk; decide) (by unfold HostArgsOk nulSize; decide)
+    dirFds zeroPage zeroPage_bytes (by decide) "fd_read" (by decide) _ rs hc
 example : HostArgsOk { args := [[112, 114, 111, 103], [45, 120]], env := [[65, 61, 98]] } := by
   unfold HostArgsOk nulSize; decide
 
